@@ -783,10 +783,15 @@ def _workload(tier, rng, shard, nshards):
         bad = t.new()
         c = rng.choice(["span", "order", "out-of-span", "degenerate"])
         if c == "span":
+            # the span is pulled inside the outermost entry: by a clear margin, by one rounding step, or by ~1e-14 relative
             if rng.random() < 0.5:
-                bad.maxTimestamp = (bad.entries[-1][-2] - 0.01) if len(bad.entries) else bad.maxTimestamp
+                last = bad.entries[-1][-2] if len(bad.entries) else None
+                if last:
+                    bad.maxTimestamp = rng.choice([last - 0.01, math.nextafter(last, -math.inf), last * (1 - 5e-15), last * (1 - 3e-12)])
             else:
-                bad.minTimestamp = (bad.entries[0][0] + 0.01) if len(bad.entries) else bad.minTimestamp
+                first = bad.entries[0][0] if len(bad.entries) else None
+                if first:
+                    bad.minTimestamp = rng.choice([first + 0.01, math.nextafter(first, math.inf), first * (1 + 5e-15), first * (1 + 3e-12)])
             REC.cls("C15:validate:corrupt-out-of-span")
         elif c == "order" and len(bad._entries) >= 2:
             bad._entries[0], bad._entries[-1] = bad._entries[-1], bad._entries[0]
